@@ -15,6 +15,7 @@ REQUIRED = [
     "CifModel.C01_bare_unk_iff", "CifModel.C01_quoted_is_char", "CifModel.C01_text_is_char", "CifModel.C01_cif1_brackets_quoted",
     "CifModel.C01_cif2_brackets_invalid", "CifModel.C01_error_free_policy_independent", "CifModel.C01_cstr_id",
     "CifModel.C01_structure", "CifModel.C01_parse_render_partial", "CifModel.C01_layout_independent",
+    "CifModel.C01_feeds_of_lex", "CifModel.C01_feeds_instance", "CifModel.C01_parse_render_instance",
 ]
 GEN = ["CharClass", "ErrCodes"]
 FAMILIES = ["lex", "parsedoc"]
@@ -48,7 +49,7 @@ PARTIAL = [
     "store exactly denote(d), under every policy (Lemmas/ParserStructure.lean: structural induction, store view lemmas).  "
     "C01_parse_render is proved as C01_parse_render_partial and C01_layout_independent with ONE hypothesis left: that the characters "
     "make the scanner deliver the token sequence of the document (`Feeds`; for render(d, layout) this is the composition of the "
-    "scanner group's C01_lex_* theorems along the document, which is not carried out); C01_parse_render_full stays a def.  Instances "
+    "scanner group's C01_lex_* theorems along the document, which is carried out for ONE document only — C01_feeds_instance / C01_parse_render_instance: `data_a _x 'v w'` + newline, every policy — as the pattern and as non-vacuity of the hypothesis, not for all documents and layouts); C01_parse_render_full stays a def.  Instances "
     "incl. the three combinations named in the property's rationale are evaluated by the kernel, and the quantifier over documents "
     "x layouts at the character level is covered by the `parsedoc` correspondence family (grammar-directed "
     "documents x random layouts through the real parser, oracle: no callback, dump = denote(doc) computed in Python).",
